@@ -1,0 +1,31 @@
+// Copyright 2026 Dolthub, Inc.
+//
+// Licensed under the Apache License, Version 2.0 (the "License");
+// you may not use this file except in compliance with the License.
+// You may obtain a copy of the License at
+//
+//     http://www.apache.org/licenses/LICENSE-2.0
+//
+// Unless required by applicable law or agreed to in writing, software
+// distributed under the License is distributed on an "AS IS" BASIS,
+// WITHOUT WARRANTIES OR CONDITIONS OF ANY KIND, either express or implied.
+// See the License for the specific language governing permissions and
+// limitations under the License.
+
+//go:build verif
+
+package merge
+
+// Machine-checked contracts for /verif (comment-only; see /verif/DESIGN.md §2.2).
+
+// ---- keyless tables are multisets (C27)
+
+// the cell-wise merge never resolves a keyless row: when both sides changed the multiplicity of the same row (the
+// differ calls TryMerge only for divergent changes of one key, and the key of a keyless row is the hash of its
+// columns, so the values differ in the multiplicity only), the answer is "not merged", which the differ turns into
+// a conflict. No merged tuple, no error.
+//@ func (*valueMerger).TryMerge
+//@   property C27
+//@   assume_requires Recycle
+//@   assume_requires BuildPermissive
+//@   ensures verif_old(m.keyless) ==> (result0 == nil && result1 == false && result2 == nil)
